@@ -24,6 +24,15 @@ func isolationAlphabet() []lx.Op {
 			lx.Op{Kind: "accmeta", Ledger: l, Name: "accmeta-a", Address: "a", Meta: map[string]string{"owner": l}},
 			lx.Op{Kind: "revert", Ledger: l, Name: "revert1", TxID: 1, Force: true},
 		)
+		if isoBucket[l] == "b1" {
+			// the ledgers that share a bucket from the start also get a write whose funds
+			// check reads SEVERAL (account, asset) balances at once (two bounded sources),
+			// and a write that gives both of those accounts a balance
+			out = append(out,
+				lx.Op{Kind: "post", Ledger: l, Name: isoFundBoth, Postings: []lx.P{p("world", "a", "USD", isoFundBothAmount[l]), p("world", "b", "USD", isoFundBothAmount[l])}},
+				lx.Op{Kind: "script", Ledger: l, Name: "ab>c50", Script: "send [USD 50] (\n source = {\n  @a\n  @b\n }\n destination = @c\n)"},
+			)
+		}
 	}
 	out = append(out,
 		lx.Op{Kind: "createledger", Ledger: "l4", Address: "b2", Name: "create-l4-in-b2"},
@@ -32,13 +41,203 @@ func isolationAlphabet() []lx.Op {
 	return out
 }
 
+const isoFundBoth = "fund-ab"
+
+// isoFundBothAmount: the same accounts get DIFFERENT balances on the two ledgers of the
+// bucket in one operation each: on l1 both sources together cannot pay the 50 of
+// `ab>c50`, on l2 each of them can. Whichever balance of the neighbour is read instead
+// of the ledger's own, the outcome of `ab>c50` changes.
+var isoFundBothAmount = map[string]string{"l1": "10", "l2": "100"}
+
+// isoBucket is the bucket of every ledger of the C19 configuration (l4 is created mid-history).
+var isoLedgers = []string{"l1", "l2", "l3", "l4"}
+
+var isoBucket = map[string]string{"l1": "b1", "l2": "b1", "l3": "b2", "l4": "b2"}
+
+// isoOutcomes records what the LAST operation of every enumerated sequence returned, so
+// that the sequence can be compared with its own projection on the ledger of that
+// operation (the same sequence without the other ledgers' operations), which is itself
+// an enumerated (shorter) sequence. Dates are left out: the logical clock counts the
+// statements of every ledger.
+type isoOutcomes struct {
+	sync.Mutex
+	byPath map[string]*isoOutcome
+}
+
+type isoOutcome struct {
+	path        []lx.Op
+	class, full string
+	zeroRows    map[string]string // ledger -> its (0,0) volumes rows no posting of it explains
+}
+
+const isoZeroRow = "vol:unexpected:cur:zero-row"
+
+func isoKey(path []lx.Op) string {
+	parts := make([]string, len(path))
+	for i, o := range path {
+		parts[i] = o.Ledger + "/" + o.String()
+	}
+	return strings.Join(parts, ",")
+}
+
+func (io *isoOutcomes) record(s *lx.StepInfo, zero map[string][]string) {
+	class := s.Out.Class
+	if s.Out.OK() {
+		class = "ok"
+		if s.Out.Hit {
+			class = "ok(hit)"
+		}
+	}
+	var sb strings.Builder
+	sb.WriteString(class)
+	if l := s.Out.Log; l != nil && l.ID != nil {
+		fmt.Fprintf(&sb, " log=%d/%s", *l.ID, l.Type)
+	}
+	if t := s.Out.Tx; t != nil && t.ID != nil {
+		fmt.Fprintf(&sb, " tx=%d %v ref=%q meta=%s", *t.ID, t.Postings, t.Reference, sortedMeta(t.Metadata))
+	}
+	if t := s.Out.Reverted; t != nil && t.ID != nil {
+		fmt.Fprintf(&sb, " reverted=%d", *t.ID)
+	}
+	zr := map[string]string{}
+	for l, rows := range zero {
+		sort.Strings(rows)
+		zr[l] = strings.Join(rows, "; ")
+	}
+	io.Lock()
+	defer io.Unlock()
+	k := isoKey(s.Path)
+	if prev := io.byPath[k]; prev != nil {
+		// second evaluation of the same sequence (freshly attached process): keep both views
+		for l, rows := range prev.zeroRows {
+			if zr[l] != rows {
+				zr[l] = rows + " | " + zr[l]
+			}
+		}
+	}
+	io.byPath[k] = &isoOutcome{path: s.Path, class: class, full: sb.String(), zeroRows: zr}
+}
+
+// compare is the cross-path half of the C19 oracle: a write on a ledger is refused or
+// accepted, and returns the transaction it returns, whatever was written on the others.
+func (io *isoOutcomes) compare(r *ev.Run, total *lx.SeqStats, cov ev.Coverage, ledgers []lx.LedgerSpec) {
+	io.Lock()
+	defer io.Unlock()
+	keys := make([]string, 0, len(io.byPath))
+	for k := range io.byPath {
+		keys = append(keys, k)
+	}
+	sort.Slice(keys, func(i, j int) bool {
+		if a, b := len(io.byPath[keys[i]].path), len(io.byPath[keys[j]].path); a != b {
+			return a < b
+		}
+		return keys[i] < keys[j]
+	})
+	var compared, notEnumerated, differing, zeroCompared, ownZero int64
+	multi := map[string]int64{}
+	for _, k := range keys {
+		got := io.byPath[k]
+		last := got.path[len(got.path)-1]
+		var own []lx.Op
+		fundedNeighbour := false
+		for _, o := range got.path[:len(got.path)-1] {
+			if o.Ledger == last.Ledger {
+				own = append(own, o)
+			} else if o.Name == isoFundBoth && isoBucket[o.Ledger] == isoBucket[last.Ledger] {
+				fundedNeighbour = true
+			}
+		}
+		own = append(own, last)
+		// (0,0) volumes rows of every ledger: exactly those its own operations produce
+		for _, l := range isoLedgers {
+			var proj []lx.Op
+			for _, o := range got.path {
+				if o.Ledger == l {
+					proj = append(proj, o)
+				}
+			}
+			if len(proj) == len(got.path) {
+				if got.zeroRows[l] != "" {
+					ownZero++
+				}
+				continue
+			}
+			want := ""
+			if len(proj) > 0 {
+				alone := io.byPath[isoKey(proj)]
+				if alone == nil {
+					continue
+				}
+				want = alone.zeroRows[l]
+			}
+			zeroCompared++
+			if got.zeroRows[l] != want {
+				differing++
+				r.Violation("C19:iso:vol:zero-row:depends-on-other-ledger", fmt.Sprintf("after %v ledger %s lists the volumes rows [%s] that none of its postings explains; after its own operations alone (%v) it lists [%s]", opNamesOf2(got.path), l, got.zeroRows[l], opNamesOf2(proj), want),
+					map[string]any{"ledgers": ledgers, "ops": got.path, "projection": proj})
+			}
+		}
+		if len(own) == len(got.path) {
+			continue
+		}
+		alone := io.byPath[isoKey(own)]
+		if alone == nil {
+			notEnumerated++ // only on a run cut by its budget
+			continue
+		}
+		compared++
+		if last.Kind == "script" && fundedNeighbour {
+			multi[alone.class]++
+		}
+		if alone.full == got.full {
+			continue
+		}
+		differing++
+		sig := fmt.Sprintf("C19:iso:outcome:%s:%s->%s", last.Kind, alone.class, got.class)
+		if alone.class == got.class {
+			sig = fmt.Sprintf("C19:iso:outcome:%s:%s:result-differs", last.Kind, got.class)
+		}
+		r.Violation(sig, fmt.Sprintf("after %v the last operation returned [%s]; without the operations of the other ledgers (%v) it returns [%s]", opNamesOf2(got.path), got.full, opNamesOf2(own), alone.full),
+			map[string]any{"ledgers": ledgers, "ops": got.path, "projection": own})
+	}
+	cov["cross_ledger_outcome_comparisons"] = compared
+	cov["cross_ledger_differences"] = differing
+	cov["projections_not_enumerated"] = notEnumerated
+	cov["cross_ledger_zero_row_comparisons"] = zeroCompared
+	cov["single_ledger_sequences_leaving_a_zero_volumes_row"] = ownZero
+	cov["multi_balance_reads_beside_a_funded_neighbour_by_own_outcome"] = multi
+	if r.ViolationCount() > 0 || total.DepthDone < 2 {
+		return
+	}
+	if compared == 0 {
+		r.EngineError("vacuous: no sequence was compared with its projection on one ledger")
+	}
+	// the multi-balance funds check must have run on a ledger whose bucket neighbour holds
+	// different balances for the same accounts, both where the ledger's own balances
+	// refuse the write and where they allow it
+	if multi["insufficient_funds"] == 0 || multi["ok"] == 0 {
+		r.EngineError(fmt.Sprintf("vacuous: two-source writes beside a bucket neighbour that funded the same accounts: %v (need both insufficient_funds and ok)", multi))
+	}
+}
+
+func opNamesOf2(path []lx.Op) []string {
+	out := make([]string, len(path))
+	for i, o := range path {
+		out[i] = o.Ledger + "/" + o.String()
+	}
+	return out
+}
+
 func init() {
+	isoCfg := []lx.LedgerSpec{{Name: "l1", Bucket: "b1"}, {Name: "l2", Bucket: "b1"}, {Name: "l3", Bucket: "b2"}}
+	isoOut := &isoOutcomes{byPath: map[string]*isoOutcome{}}
 	registerSeq(seqCheck{
 		id: "C19", quick: 110 * time.Second, thor: 15 * time.Minute, depthQ: 3, depthT: 4,
 		alphabet: isolationAlphabet(), restart: true,
-		configs: [][]lx.LedgerSpec{{{Name: "l1", Bucket: "b1"}, {Name: "l2", Bucket: "b1"}, {Name: "l3", Bucket: "b2"}}},
+		configs: [][]lx.LedgerSpec{isoCfg},
 		sigs:    []string{"iso:", "ref:"},
 		check: func(ctx context.Context, s *lx.StepInfo, rep *lx.Report) {
+			zero := map[string][]string{}
 			var names []string
 			for n := range s.Ctrls {
 				names = append(names, n)
@@ -48,6 +247,14 @@ func init() {
 				sub := &lx.Report{}
 				lx.CheckCurrent(ctx, s.Ctrls[n], s.Refs[n], sub)
 				for _, m := range sub.Items {
+					if m.Sig == isoZeroRow {
+						// a (0,0) volumes row of a pair no posting of this ledger touches: the
+						// ledger's own funds checks create such rows (GetBalances inserts a zero
+						// row for every balance it reads), so the reference cannot tell whose
+						// row it is; the projection oracle can: see isoOutcomes.compare
+						zero[n] = append(zero[n], m.What)
+						continue
+					}
 					rep.Add("iso:"+m.Sig, "ledger %s: %s", n, m.What)
 				}
 				// schemas listing must be empty everywhere (no schema is ever inserted here)
@@ -55,9 +262,11 @@ func init() {
 					rep.Add("iso:schemas", "ledger %s lists %d schemas", n, len(sc.Data))
 				}
 			}
+			isoOut.record(s, zero)
 		},
-		need: []string{"post:ok", "revert:ok", "accmeta:ok", "createledger:ok"},
-		rule: "ledgers l1,l2 share bucket b1, l3 is alone in b2 (alone-in-bucket optimisation active) until the operation `create l4 in b2` runs; every sequence of length<=depth over the same writes on each ledger (same addresses, same reference r, same idempotency key k, reverts of tx 1) plus the mid-history ledger creation; after each sequence EVERY read API of EVERY ledger must equal that ledger's own reference model, from the live controllers (whose stores share the per-bucket aloneInBucket flag) and from a freshly attached process",
+		post: func(r *ev.Run, total *lx.SeqStats, cov ev.Coverage) { isoOut.compare(r, total, cov, isoCfg) },
+		need: []string{"post:ok", "post:insufficient_funds", "script:ok", "script:insufficient_funds", "revert:ok", "accmeta:ok", "createledger:ok"},
+		rule: "ledgers l1,l2 share bucket b1, l3 is alone in b2 (alone-in-bucket optimisation active) until the operation `create l4 in b2` runs; every sequence of length<=depth over the same writes on each ledger (same addresses, same reference r, same idempotency key k, reverts of tx 1; on the two ledgers sharing b1 also a transaction funding accounts a and b, with 10 each on l1 and 100 each on l2 so that the same accounts hold different balances, and a Numscript send of 50 drawing on the two bounded sources {@a @b}, whose funds check reads two balances at once: l1 alone cannot pay it, l2 alone can) plus the mid-history ledger creation. (1) after each sequence EVERY read API of EVERY ledger must equal that ledger's own reference model, from the live controllers (whose stores share the per-bucket aloneInBucket flag) and from a freshly attached process; (2) what the last operation of each sequence returned (accepted / refused with which error / idempotency hit, log id and type, transaction id, postings, reference, metadata, reverted id; dates aside) must equal what it returns in the same sequence WITHOUT the operations of the other ledgers (its projection, itself an enumerated sequence): e.g. insufficient funds on l1 must not depend on the balances of the same accounts on l2; (3) a (0,0) volumes row of a pair no posting of the ledger touches (the ledger's funds check materialises one for each source it consulted) must be there exactly when the ledger's own operations alone leave it",
 	})
 
 	// ---------- C35 ----------
